@@ -1074,8 +1074,10 @@ pub(crate) fn eval_up_to(
             };
 
             env.stop_at_expr_id = Some(expr_id);
+            env.stop_at_loop_entry = true;
             let res = eval_toplevel_call(&name_sym.name, &args, env, session, vfs_path);
             env.stop_at_expr_id = None;
+            env.stop_at_loop_entry = false;
 
             res.map(|v| (v, position))
         }
@@ -1095,6 +1097,7 @@ pub(crate) fn eval_up_to(
             };
 
             env.stop_at_expr_id = Some(expr_id);
+            env.stop_at_loop_entry = true;
             let res = eval_toplevel_method_call(
                 prev_recv,
                 &method_info.name_sym.name,
@@ -1104,15 +1107,18 @@ pub(crate) fn eval_up_to(
                 vfs_path,
             );
             env.stop_at_expr_id = None;
+            env.stop_at_loop_entry = false;
 
             res.map(|v| (v, position))
         }
         ToplevelItem::Test(test) => {
             env.stop_at_expr_id = Some(expr_id);
+            env.stop_at_loop_entry = true;
 
             push_test_stackframe(test, env);
             let res = eval(env, session);
             env.stop_at_expr_id = None;
+            env.stop_at_loop_entry = false;
 
             res.map(|v| (v, position))
         }
@@ -1122,9 +1128,11 @@ pub(crate) fn eval_up_to(
         }
         ToplevelItem::Expr(_) | ToplevelItem::Block(_) => {
             env.stop_at_expr_id = Some(expr_id);
+            env.stop_at_loop_entry = true;
 
             let res = eval_toplevel_items(vfs_path, std::slice::from_ref(item), env, session);
             env.stop_at_expr_id = None;
+            env.stop_at_loop_entry = false;
 
             match res {
                 Ok(mut eval_summary) => {
@@ -7252,7 +7260,8 @@ pub(crate) fn eval(env: &mut Env, session: &Session) -> Result<Value, EvalError>
                 // `for x in y { z }` loops are a special case. We
                 // want to evaluate `y`, enter the block, then stop
                 // evaluation, so we know the first value of `x`.
-                if matches!(outer_expr.expr_, Expression_::ForIn(_, _, _))
+                if env.stop_at_loop_entry
+                    && matches!(outer_expr.expr_, Expression_::ForIn(_, _, _))
                     && matches!(expr_state, ExpressionState::PartiallyEvaluated(_))
                 {
                     return Ok(Value::unit());
